@@ -1,4 +1,6 @@
 import Pi2.Codec
+import Pi2.Notation
+import Pi2.Match
 /-!
 # Wire syntax of the correspondence protocol (DESIGN.md §9b): S-expressions
 
@@ -108,3 +110,49 @@ def bytesOfHex (s : String) : Option (List Nat) :=
     | a :: b :: r => do let x ← hexVal a; let y ← hexVal b; let rest ← go r; pure ((16 * x + y) :: rest)
     | _ => none
   go s.toList
+
+
+open Sexp in
+partial def npatOfSexp : Sexp → Option NPat
+  | .list [.atom "evar", n] => do pure (.evar (← nat? n))
+  | .list [.atom "svar", n] => do pure (.svar (← nat? n))
+  | .list [.atom "sym", n] => do pure (.sym (← nat? n))
+  | .list [.atom "imp", l, r] => do pure (.imp (← npatOfSexp l) (← npatOfSexp r))
+  | .list [.atom "app", l, r] => do pure (.app (← npatOfSexp l) (← npatOfSexp r))
+  | .list [.atom "ex", n, p] => do pure (.ex (← nat? n) (← npatOfSexp p))
+  | .list [.atom "mu", n, p] => do pure (.mu (← nat? n) (← npatOfSexp p))
+  | .list [.atom "mv", n, a, b, c, d, e] => do
+      pure (.mv (← nat? n) (← natList? a) (← natList? b) (← natList? c) (← natList? d) (← natList? e))
+  | .list [.atom "esub", p, n, q] => do pure (.esub (← npatOfSexp p) (← nat? n) (← npatOfSexp q))
+  | .list [.atom "ssub", p, n, q] => do pure (.ssub (← npatOfSexp p) (← nat? n) (← npatOfSexp q))
+  | .list [.atom "inst", p, .list m] => do
+      let p ← npatOfSexp p
+      let m ← m.mapM fun kv => match kv with
+        | .list [k, v] => do pure ((← nat? k), (← npatOfSexp v))
+        | _ => none
+      pure (.inst p m)
+  | _ => none
+
+open Sexp in
+def nmapOfSexp : Sexp → Option (List (Nat × NPat))
+  | .list m => m.mapM fun kv => match kv with
+      | .list [k, v] => do pure ((← nat? k), (← npatOfSexp v))
+      | _ => none
+  | _ => none
+
+partial def npatToStr : NPat → String
+  | .evar x => s!"(evar {x})"
+  | .svar x => s!"(svar {x})"
+  | .sym x => s!"(sym {x})"
+  | .imp l r => s!"(imp {npatToStr l} {npatToStr r})"
+  | .app l r => s!"(app {npatToStr l} {npatToStr r})"
+  | .ex x p => s!"(ex {x} {npatToStr p})"
+  | .mu x p => s!"(mu {x} {npatToStr p})"
+  | .mv n a b c d e => s!"(mv {n} {natsToStr a} {natsToStr b} {natsToStr c} {natsToStr d} {natsToStr e})"
+  | .esub p x q => s!"(esub {npatToStr p} {x} {npatToStr q})"
+  | .ssub p x q => s!"(ssub {npatToStr p} {x} {npatToStr q})"
+  | .inst p m => "(inst " ++ npatToStr p ++ " (" ++ " ".intercalate (m.map fun (k, v) => s!"({k} {npatToStr v})") ++ "))"
+
+
+def substToStr (s : List (Nat × NPat)) : String :=
+  "(" ++ " ".intercalate (s.map fun (k, v) => s!"({k} {npatToStr v})") ++ ")"
